@@ -154,8 +154,8 @@ def reset_index_(df: pd.DataFrame, *, names: Optional[SWCNames] = None) -> None:
     root_loc = roots.argmax()
     root_id = df.loc[root_loc, names.id]  # type:ignore
     df[names.id] = df[names.id] - root_id
-    df[names.pid] = df[names.pid] - root_id
-    df.loc[root_loc, names.pid] = -1  # type:ignore
+    # keep the "no parent" marker of every root, not only of the first one
+    df[names.pid] = np.where(df[names.pid] == -1, -1, df[names.pid] - root_id)
 
 
 def _copy_and_apply(fn: Callable, df: pd.DataFrame, *args, **kwargs):
